@@ -145,6 +145,13 @@ inline std::string g_host(Tape &t, int *kind = nullptr) {
   int k = t.weighted({6, 2, 3, 3, 1});
   int kk = 1;
   std::string s;
+  if (g_scale() > 1 && t.chance(1, 10)) {  // long mode: a registered name of about 1024 / 4096 characters, clean or with one capital
+    static const int lens[] = {1023, 1024, 1025, 4096, 96, 97};
+    s = std::string((size_t)lens[t.below(6)], 'h');
+    if (t.coin()) s[s.size() - 2] = 'H';
+    if (kind) *kind = 1;
+    return s;
+  }
   switch (k) {
     case 0: s = t.chance(3, 4) ? t.pick(regs) : g_run(t, 8, "", true); kk = 1; break;
     case 1: s = ""; kk = 1; break;
@@ -190,9 +197,10 @@ inline std::string g_segment(Tape &t, int flavor = SEG_ANY) {
   static const std::vector<std::string> vocab_nopctdot = {"a", "", ".", "..", "b", "c", "a:b", "%41", "%7e", "%3a",
                                                           ";p", "@", "x.y", "..a", "d:", "%2F", "e", ":", "1:2", "_k:v", ".a", "...", "a.", "~."};
   if (g_scale() > 1 && t.chance(1, 8)) {
-    static const int totals[] = {255, 256, 257, 258, 259, 512, 513, 514};
-    std::string pre = t.coin() ? "." : "..";
-    int total = totals[t.below(8)];
+    static const int totals[] = {255, 256, 257, 258, 259, 512, 513, 514, 1023, 1024, 1025, 4095, 4096, 4097, 999, 1000, 1001, 96, 97, 128};
+    static const char *pres4[] = {".", "..", "", "A"};  // dot-led, clean (nothing to repair), and with one letter to lower-case / keep
+    std::string pre = pres4[t.below(4)];
+    int total = totals[t.below(20)];
     // once per case at most (the recursive-descent parser needs stack in proportion to the text length): 2^16 + 1 / + 2
     if (g_huge_left() > 0 && t.chance(1, 6)) {
       g_huge_left()--;
@@ -231,8 +239,16 @@ inline std::string g_path(Tape &t, bool hasScheme, bool hasAuth, int flavor = SE
   int form = hasAuth ? t.weighted({1, 3, 0}) : t.weighted({1, 2, 3});
   if (form == 0) return "";
   int n = t.range(form == 1 ? 0 : 1, maxSegs * g_scale());
+  // long mode, one path in ten: several hundred / a thousand segments (thresholds and counters that are not powers of two);
+  // only the first and last few are generated, the rest is a constant (the choice tape is finite)
+  int filler = 0;
+  if (g_scale() > 1 && t.chance(1, 10)) { static const int counts[] = {384, 385, 400, 999, 1000, 1001, 1024, 1025}; filler = counts[t.below(8)]; n = t.range(2, 5); }
   std::vector<std::string> segs;
-  for (int i = 0; i < n; i++) segs.push_back(g_segment(t, flavor));
+  for (int i = 0; i < n; i++) {
+    segs.push_back(g_segment(t, flavor));
+    if (filler && i == n / 2) { for (int k = n; k < filler; k++) segs.push_back(k % 5 ? "d" : "e"); }
+  }
+  n = (int)segs.size();
   if (form == 1) {
     if (n == 0) return "/";
     // path-absolute without authority: first segment must be non-empty (else it would read as "//")
@@ -254,6 +270,7 @@ inline std::string g_path(Tape &t, bool hasScheme, bool hasAuth, int flavor = SE
 }
 inline std::string g_queryfrag(Tape &t) {
   static const std::vector<std::string> pool = {"", "q", "a=b&c=d", "x/y?z", "%41%7e", "k=%3d", ":@/?", "Q%c3"};
+  if (g_scale() > 1 && t.chance(1, 8)) { static const int lens[] = {1023, 1024, 1025, 4095, 4096, 4097, 1000, 2048}; return std::string(t.coin() ? "q=" : "") + std::string((size_t)lens[t.below(8)], 'v'); }
   if (t.chance(3, 4)) return t.pick(pool);
   return g_run(t, 8, ":@/?", true);
 }
@@ -486,7 +503,7 @@ inline void g_source_base(Tape &t, GenUri *S, GenUri *B, int *klass, int flavor 
   std::vector<std::string> bs;
   for (int i = 0; i < nb; i++) bs.push_back(seg());
   // long mode: in a third of the cases the base lies 250-300 directories deep (counters of "../" that are narrower than int)
-  if (g_scale() > 1 && t.chance(1, 3)) { int deep = t.range(250, 300); for (int i = 0; i < deep; i++) bs.push_back(i % 7 ? "a" : "b"); }
+  if (g_scale() > 1 && t.chance(1, 3)) { int deep = t.chance(3, 4) ? t.range(250, 300) : t.range(995, 1030); for (int i = 0; i < deep; i++) bs.push_back(i % 7 ? "a" : "b"); }
   bool brooted = b.hasAuth ? true : t.chance(3, 4);
   auto fixfirst = [&](std::vector<std::string> &v, bool rooted, bool hasAuth) {
     if (v.empty()) return;
